@@ -10,7 +10,7 @@ CHECKS = {
         text="Static: SYNC table folded, checked and pinned; the real Burst.__init__/as_bits/interleave/deinterleave/extract_data are analysed by abstract interpretation with the payload PDU as a box of N symbolic bits: "
              "for 8 payload kinds x 4 data SYNC patterns x symbolic colour code the bits handed to the PDU decoder are exactly the assembled payload atoms (through the real BPTC(196,96); rate 3/4 via the C10 inverse pair), "
              "data type/colour code equal, re-serialisation identical; voice bursts around each voice SYNC and around a valid EMB word with 32 symbolic embedded bits re-serialise identically on every feasible path "
-             "(affine path constraints prove that a valid EMB never collides with a SYNC pattern).",
+             "(affine path constraints prove that a valid EMB never collides with a SYNC pattern). Population-count thresholds on the centre bits become conditions that remember their operands; a difference on such a path is reported only with a concrete witness; SyncPatterns look-ups are resolved by interpreting _missing_ whenever it computes the member it returns.",
         technique="constant folding + table algebra; abstract interpretation over GF(2)-affine bit forms with affine path constraints",
         note="trusted: C02/C03/C06/C10 verdicts (component codes and PDU codecs), bitarray models; voice bursts analysed with burst_type=Vocoder",
         ref="DESIGN.md §3 C01"),
@@ -59,7 +59,7 @@ CHECKS = {
         text="Static: the generator's block-size tables are folded and compared with the Rate*DataTypes members and resolve(); for each rate x mode x analysed payload length the real pipeline "
              "(generate_full_data_transmission -> Burst.as_bytes -> Burst.from_bytes -> Transmission.process_packet with an effect-recording observer) is analysed by abstract interpretation with symbolic payload octets: "
              "one start + one data end, received data == payload atoms + announced zero pad, CRC-32 == uninterpreted CRC32 of that data in transmitted byte order, confirmed CRC-9 indicators provably True, "
-             "exact preamble countdown; plus two transmissions back to back on one tracker.",
+             "exact preamble countdown; plus two transmissions back to back on one tracker. Plus generate_csbk_preambles interpreted alone up to totals of 255 (8-bit blocks-to-follow field): preamble j announces exactly the bursts that follow.",
         technique="constant folding; abstract interpretation of the whole generate/serialise/parse/track pipeline over GF(2)-affine forms, per analysed length",
         note="trusted: C02/C05/C10 for BPTC, CRC engines (uninterpreted) and trellis (inverse pair); lengths analysed are listed in the evidence (quick 24 lengths up to 60 octets, thorough 0..129,255..257,400); other lengths are not decided",
         ref="DESIGN.md §3 C07"),
@@ -101,7 +101,7 @@ CHECKS = {
     "C13": dict(
         text="Static: a symbolic well-formed 72-octet frame (576 atoms under affine well-formedness constraints) is decoded by the real from_ipsc_bytes and by from_kaitai on the object produced by the generated Kaitai parser's own _read "
              "(parser source read as data, stream = cursor over the same atoms); all attributes must be equal bit forms, ids/colour/sequence the bits the frame encodes, as_ipsc_bytes of either object must reproduce all 576 forms, "
-             "and Burst.from_hytera_ipsc must build the same burst from either input on each of the slot-type paths.",
+             "and Burst.from_hytera_ipsc must build the same burst from either input on each of the slot-type paths. The frame Burst.from_hytera_ipsc leaves attached to the burst must still serialise to the received 72 octets.",
         technique="abstract interpretation over GF(2)-affine bit forms of three sibling implementations on one symbolic input (cross-checking siblings); affine path constraints for well-formedness",
         note="trusted: model of the five KaitaiStream read primitives; Burst constructors stubbed in the from_hytera_ipsc rule (C01); well-formedness = fixed header, replicated colour nibble, zero pad octets, byte-palindromic codes (checked)",
         ref="DESIGN.md §3 C13"),
@@ -130,14 +130,14 @@ CHECKS = {
     "C17": dict(
         text="Static: every path of the real HSTRP and RRS datagram_received (18 + 65 paths) is enumerated by abstract interpretation with the decoder replaced by 'raises | None | HSTRP with symbolic type bits, S/N, payload kind' "
              "and the transport as an effect-recording stub; hstrp_send_ack/heartbeat/rrs_confirm/deepcopy/as_bytes are interpreted for real, so each answer's bytes are bit forms over the request's atoms. Rules over (fixed type bits, effects, final state): "
-             "never raises, acks never answered, exactly one ack with the request's S/N and no payload, heartbeat echo only while connected, connected flag, registry updates, one bounded-S/N confirm per registration.",
+             "never raises, acks never answered, exactly one ack with the request's S/N and no payload, heartbeat echo only while connected, connected flag, registry updates, one bounded-S/N confirm per registration. Interval rule: every assignment to the handler's own sequence number maps [0,0xFFFF] into itself (no 2-octet overflow after any history length).",
         technique="path enumeration by abstract interpretation with symbolic booleans (trace partitioning), effect sequences per path",
         note="trusted: the decoder abstraction (any datagram either is rejected or yields an HSTRP object); 'never raises' is decided for the handler paths under that abstraction, not for the byte-level decoder",
         ref="DESIGN.md §3 C17"),
     "C18": dict(
         text="Static: the real P2P handler + RepeaterStorage + Repeater are analysed for each request kind x authorisation state of the sender with a symbolic datagram body (effects = sendto calls): reject exactly once to the requester when "
              "unregistered, serve only to stored/own addresses when registered, registration marks exactly the sender; RDAC: for every step value and datagram shape the effects, the sender's and another peer's step entries and the completion callback are inspected; "
-             "repository-wide single-writer scan for the registered attribute.",
+             "repository-wide single-writer scan for the registered attribute. P2P datagram lengths analysed: 32 and every length around a constant the handlers compare len(data) with (derived from the source).",
         technique="abstract interpretation of handlers on scenario x state products with effect recording; syntax-tree ownership scan",
         note="trusted: read_snmp_values replaced by a no-op; datagram bodies of fixed analysed length; histories are covered as (any stored state) x (any next datagram), i.e. inductively per step",
         ref="DESIGN.md §3 C18"),
@@ -153,7 +153,7 @@ CHECKS = {
         ref="DESIGN.md §3 C19"),
     "C20": dict(
         text="Static: ownership rules over the syntax tree (registry writers, read-only lookups, single writer of Repeater.id) plus abstract interpretation of the real storage methods on scenario sequences with symbolic patch values "
-             "(identity of repeated lookups, growth only on auto-create of unseen addresses, key == record.id coherence, patch touches exactly the named fields of exactly the matched record).",
+             "(identity of repeated lookups, growth only on auto-create of unseen addresses, key == record.id coherence, patch touches exactly the named fields of exactly the matched record). Includes re-addressing a record through its own patch() followed by look-ups (no stale look-up memo).",
         technique="syntax-tree ownership / who-may-write rules; abstract interpretation of scenario sequences",
         note="trusted: uuid4 results distinct; sequences beyond the analysed scenarios are covered by the ownership rules only",
         ref="DESIGN.md §3 C20"),
